@@ -37,6 +37,8 @@ pub struct KeyTruth {
     pub dead: DeadReason,
     /// every value id ever written to this key
     pub written: Vec<u64>,
+    /// the record of the value that was last invalidated by invalidate_all
+    pub last_dead: Option<Live>,
 }
 
 impl Default for KeyTruth {
@@ -45,6 +47,7 @@ impl Default for KeyTruth {
             cur: None,
             dead: DeadReason::NeverInserted,
             written: Vec::new(),
+            last_dead: None,
         }
     }
 }
@@ -215,7 +218,7 @@ impl Truth {
                     // same clock reading: neither targeted nor protected
                     l.uncertain = true;
                 } else {
-                    kt.cur = None;
+                    kt.last_dead = kt.cur.take();
                     kt.dead = DeadReason::InvalidatedByAll;
                 }
             }
